@@ -11,6 +11,7 @@ import (
 	"kverif/cal"
 	"kverif/core"
 	"kverif/gen"
+	"kverif/ref"
 	"kverif/tab"
 )
 
@@ -199,6 +200,20 @@ func c12Make(r *rand.Rand) c12Hist {
 		}
 	}
 	h.Days = days
+	// an echo: the most recent declaration of some pair is declared again on a day of its own,
+	// the other way round with the stored (truncated) reciprocal as its price, or unchanged
+	if len(h.Days) > 0 && r.Intn(3) == 0 {
+		last := h.Days[len(h.Days)-1]
+		dc := last[r.Intn(len(last))]
+		if p := gen.Rat(dc.Price); p.Sign() > 0 {
+			echo := c12Decl{Com: dc.Com, Tgt: dc.Tgt, Price: dc.Price}
+			if inv := ref.Trunc8(new(big.Rat).Inv(p)); inv.Sign() > 0 && r.Intn(4) != 0 {
+				echo = c12Decl{Com: dc.Tgt, Tgt: dc.Com, Price: inv.FloatString(8)}
+			}
+			h.Days = append(h.Days, []c12Decl{echo})
+			h.Shape += "+echo"
+		}
+	}
 	date := cal.FromYMD(2020, 1, 1) + cal.Day(r.Intn(400))
 	for range h.Days {
 		h.Dates = append(h.Dates, date)
